@@ -85,3 +85,10 @@ def discard_and_prune(m, k, x):
     s.discard(x)
     if not s:
       del m[k]
+
+
+def fresh_empty_list(n):
+  """A concrete empty list in the post-state: clauses quantifying over an EMPTY index range of it
+  are decided by the range alone (the body cannot be given a sort)."""
+  out = []
+  return out
